@@ -1,5 +1,5 @@
 (* C10 model: the template-level tokenizer of minijinja/src/compiler/lexer.rs, restricted to
-   what decides the text output, mirroring the code AS IT IS (after the four `fix:` commits
+   what decides the text output, mirroring the code AS IT IS (after the five `fix:` commits
    recorded in known/C10.json; the behaviour before each fix is kept behind a [quirks] flag so
    that the defects stay exhibited by closed [vm_compute] examples in Proofs.v).
 
@@ -45,10 +45,11 @@ Record quirks := {
   q_raw_lstrip : bool;    (* handle_raw_tag lstrips the raw content without the start-of-line test *)
   q_lf_only : bool;       (* lstrip_block accepts only LF as the line ending before the indentation *)
   q_skipnl_swapped : bool;(* skip_nl strips LF then CR (so CRLF loses only its CR) *)
-  q_empty_end : bool      (* build() accepts empty end delimiters *)
+  q_empty_end : bool;     (* build() accepts empty end delimiters *)
+  q_line_blank : bool     (* without lstrip_blocks a line comment strips the blanks before it without the start-of-line test *)
 }.
-Definition fixed : quirks := {| q_raw_lstrip := false; q_lf_only := false; q_skipnl_swapped := false; q_empty_end := false |}.
-Definition before_fixes : quirks := {| q_raw_lstrip := true; q_lf_only := true; q_skipnl_swapped := true; q_empty_end := true |}.
+Definition fixed : quirks := {| q_raw_lstrip := false; q_lf_only := false; q_skipnl_swapped := false; q_empty_end := false; q_line_blank := false |}.
+Definition before_fixes : quirks := {| q_raw_lstrip := true; q_lf_only := true; q_skipnl_swapped := true; q_empty_end := true; q_line_blank := true |}.
 
 Record cfg := { dl : delims; wsc : wsconfig; qk : quirks }.
 
@@ -192,9 +193,13 @@ Fixpoint scan_line_start (rb : str) : bool :=
   | [] => true
   | c :: r => if is_nl c then true else if is_ws c then scan_line_start r else false
   end.
-Definition should_lstrip (flag : bool) (mk : marker) (rb : str) : bool :=
-  if flag && negb (match mk with MkVar => true | _ => false end) then scan_line_start rb
-  else match mk with MkLineStmt | MkLineComment => true | _ => false end.
+Definition should_lstrip (q : quirks) (flag : bool) (mk : marker) (rb : str) : bool :=
+  let is_line := match mk with MkLineStmt | MkLineComment => true | _ => false end in
+  let is_var := match mk with MkVar => true | _ => false end in
+  if q_line_blank q then
+    (if flag && negb is_var then scan_line_start rb else is_line)
+  else
+    (if (flag || is_line) && negb is_var then scan_line_start rb else false).
 
 (* ---- small string helpers ---- *)
 Definition nthZ (n : Z) (l : str) : option Z := hd_error (skipZ n l).
@@ -208,7 +213,7 @@ Fixpoint find_sub (needle hay : str) (i : Z) : option Z :=
 Definition is_ascii_ws (c : Z) : bool := (c =? 32) || (c =? 9) || (c =? 10) || (c =? 12) || (c =? 13).
 
 (* position state: reversed consumed source, rest, offset (code points) *)
-Definition pos := (str * str * Z)%type.
+Notation pos := (list Z * list Z * Z)%type (only parsing).
 Definition advance (n : Z) (p : pos) : pos :=
   let '(rb, rest, off) := p in (rev_append (takeZ n rest) rb, skipZ n rest, off + n).
 
@@ -309,53 +314,70 @@ Definition line_end_check (c : cfg) (l : str) : option Z :=
   let '(was_nl, n) := skip_nl (qk c) r in
   if was_nl then Some (lenZ l - lenZ r + n) else None.
 
+(* what the lexer does with the first character of [l] *)
+Inductive action := AEnd (n : Z) (t : tailact) | AStep (m : smode) (dparen : Z) | AErr (code : Z) | AOOS.
+
+(* at a token boundary (the top of tokenize_block_or_var) *)
+Definition token_action (c : cfg) (s : sentinel) (paren : Z) (l : str) : action :=
+  match l with
+  | [] => AOOS
+  | a :: r =>
+      match (if paren =? 0 then match s with SLine => line_end_check c l | _ => None end else None) with
+      | Some n => AEnd n TNone
+      | None =>
+          if is_ascii_ws a then AStep Normal 0
+          else
+            match (if paren =? 0 then end_check c s l else None) with
+            | Some (n, t) => AEnd n t
+            | None =>
+                if 128 <=? a then AOOS
+                else if match r with b :: _ => two_char_op a b | [] => false end then AStep Skip1 0
+                else if one_char_op a then AStep Normal 0
+                else if negb (paren_delta a =? 0) then AStep Normal (paren_delta a)
+                else if (a =? 39) || (a =? 34) then AStep (InStr a false) 0
+                else if is_digit a then AStep (InNum 1) 0
+                else if is_ident_start a then AStep InIdent 0
+                else AErr E_SyntaxError
+            end
+      end
+  end.
+
+Definition char_action (c : cfg) (s : sentinel) (m : smode) (paren : Z) (l : str) : action :=
+  match l with
+  | [] => AOOS
+  | a :: _ =>
+      match m with
+      | Normal => token_action c s paren l
+      | Skip1 => AStep Normal 0                      (* second character of a two-character operator *)
+      | InStr d esc =>
+          if esc then AOOS
+          else if a =? 92 then AOOS                   (* escapes: unescape() is not modelled *)
+          else if a =? d then AStep Normal 0
+          else AStep (InStr d false) 0
+      | InIdent =>
+          if 128 <=? a then AOOS
+          else if is_ident_cont a then AStep InIdent 0
+          else token_action c s paren l
+      | InNum k =>
+          if is_digit a then (if (18 <=? k)%nat then AOOS else AStep (InNum (S k)) 0)
+          else if is_alpha a || (a =? 95) || (a =? 46) || (128 <=? a) then AOOS   (* floats, radix, digit separators *)
+          else token_action c s paren l
+      end
+  end.
+
 Fixpoint scan (c : cfg) (s : sentinel) (m : smode) (paren : Z) (rb l : str) (off : Z) : scan_out :=
-  let fin (n : Z) (t : tailact) :=
-    let '(rb', rest', off') := advance n (rb, l, off) in ScEnd rb' rest' off' t in
-  let at_eof := match s with SLine => ScEnd rb [] off TNone | _ => ScEof end in
   match l with
   | [] =>
       match m with
       | InStr _ _ => ScErr E_SyntaxError
-      | _ => at_eof
+      | _ => match s with SLine => ScEnd rb [] off TNone | _ => ScEof end
       end
   | a :: r =>
-      let token_start :=
-        match (if (paren =? 0) then match s with SLine => line_end_check c l | _ => None end else None) with
-        | Some n => fin n TNone
-        | None =>
-            if is_ascii_ws a then scan c s Normal paren (a :: rb) r (off + 1)
-            else
-              match (if paren =? 0 then end_check c s l else None) with
-              | Some (n, t) => fin n t
-              | None =>
-                  if 128 <=? a then ScOOS
-                  else if match r with b :: _ => two_char_op a b | [] => false end
-                  then scan c s Skip1 paren (a :: rb) r (off + 1)
-                  else if one_char_op a then scan c s Normal paren (a :: rb) r (off + 1)
-                  else if negb (paren_delta a =? 0) then scan c s Normal (paren + paren_delta a) (a :: rb) r (off + 1)
-                  else if (a =? 39) || (a =? 34) then scan c s (InStr a false) paren (a :: rb) r (off + 1)
-                  else if is_digit a then scan c s (InNum 1) paren (a :: rb) r (off + 1)
-                  else if is_ident_start a then scan c s InIdent paren (a :: rb) r (off + 1)
-                  else ScErr E_SyntaxError
-              end
-        end in
-      match m with
-      | Normal => token_start
-      | Skip1 => scan c s Normal paren (a :: rb) r (off + 1)
-      | InStr d esc =>
-          if esc then ScOOS
-          else if a =? 92 then ScOOS
-          else if a =? d then scan c s Normal paren (a :: rb) r (off + 1)
-          else scan c s (InStr d false) paren (a :: rb) r (off + 1)
-      | InIdent =>
-          if 128 <=? a then ScOOS
-          else if is_ident_cont a then scan c s InIdent paren (a :: rb) r (off + 1)
-          else token_start
-      | InNum k =>
-          if is_digit a then (if (18 <=? k)%nat then ScOOS else scan c s (InNum (S k)) paren (a :: rb) r (off + 1))
-          else if is_alpha a || (a =? 95) || (a =? 46) || (128 <=? a) then ScOOS
-          else token_start
+      match char_action c s m paren l with
+      | AEnd n t => let '(rb', rest', off') := advance n (rb, l, off) in ScEnd rb' rest' off' t
+      | AStep m' dp => scan c s m' (paren + dp) (a :: rb) r (off + 1)
+      | AErr code => ScErr code
+      | AOOS => ScOOS
       end
   end.
 
@@ -365,9 +387,13 @@ Inductive fin := FOk | FEof | FErr (code : Z) | FPanic | FOOS | FGas.
 
 Definition text_item (s : str) : list item := match s with [] => [] | _ => [IText s] end.
 
-(* ---- handle_raw_tag: position just after the raw tag.  Some (content chunk, position after endraw, flag).
+(* what happens after one iteration at template level *)
+Inductive next := Stop (e : fin) | Cont (p : pos) (tl : bool).
+Definition cont_of (pt : pos * bool) : next := Cont (fst pt) (snd pt).
+
+(* ---- handle_raw_tag: position just after the raw tag; the content chunk and what follows the endraw tag.
    [wait]: characters still covered by a block start whose endraw test failed (memstr resumes after it) ---- *)
-Definition raw_finish (c : cfg) (ws_start : wsm) (rb0 acc l : str) (off0 : Z) : option (str * (pos * bool)) :=
+Definition raw_finish (c : cfg) (ws_start : wsm) (rb0 acc l : str) (off0 : Z) : option (str * next) :=
   let bs := block_s (dl c) in
   let after_bs := skipZ (lenZ bs) l in
   match skip_basic_tag after_bs s_endraw (block_e (dl c)) true with
@@ -387,17 +413,17 @@ Definition raw_finish (c : cfg) (ws_start : wsm) (rb0 acc l : str) (off0 : Z) : 
                 | WDefault =>
                     if q_raw_lstrip (qk c)
                     then (if lstrip_b (wsc c) then lstrip_block (qk c) r1 else r1)
-                    else if should_lstrip (lstrip_b (wsc c)) MkBlock (acc ++ rb0) then lstrip_block (qk c) r1 else r1
+                    else if should_lstrip (qk c) (lstrip_b (wsc c)) MkBlock (acc ++ rb0) then lstrip_block (qk c) r1 else r1
                 | WRemove => rstrip is_ws r1
                 | WPreserve => r1
                 end in
       let p := advance (lenZ bs + endraw) (acc ++ rb0, l, off0 + lenZ acc) in
-      Some (r2, tail_ws c ws_next p)
+      Some (r2, cont_of (tail_ws c ws_next p))
   | None => None
   end.
 
 Fixpoint raw_search (c : cfg) (ws_start : wsm) (rb0 : str) (acc : str) (* reversed content so far *) (l : str) (off0 : Z)
-    (wait : nat) : option (str * (pos * bool)) :=
+    (wait : nat) : option (str * next) :=
   let here := match wait with
               | O => if prefix_of (block_s (dl c)) l then Some (raw_finish c ws_start rb0 acc l off0) else None
               | S _ => None
@@ -417,77 +443,88 @@ Fixpoint raw_search (c : cfg) (ws_start : wsm) (rb0 : str) (acc : str) (* revers
       end
   end.
 
+(* ---- the end of a variable / block tag / line statement ---- *)
+Definition after_scan (c : cfg) (o : scan_out) : next :=
+  match o with
+  | ScEnd rb' rest' off' t =>
+      match t with
+      | TNone => Cont (rb', rest', off') false
+      | TMinus => Cont (rb', rest', off') true
+      | TTrimNl => Cont (skip_trim_nl c (rb', rest', off')) false
+      end
+  | ScEof => Stop FEof
+  | ScErr code => Stop (FErr code)
+  | ScOOS => Stop FOOS
+  end.
+
+(* ---- handle_start_marker at [pm] (the position of the start delimiter); [len] covers the delimiter and its sign ---- *)
+Definition handle_start_marker (c : cfg) (mk : marker) (len : Z) (pm : pos) : list item * next :=
+  let '(_, after, offm) := pm in
+  match mk with
+  | MkComment =>
+      if is_nil (com_e (dl c)) then ([], Stop FPanic)                 (* memstr: windows(0) *)
+      else match find_sub (com_e (dl c)) (skipZ len after) 0 with
+           | Some e =>
+               let w2 := ws_of (nthZ (Z.max (e - 1) 0 + len) after) in
+               ([], cont_of (tail_ws c w2 (advance (e + len + lenZ (com_e (dl c))) pm)))
+           | None => ([], Stop (FErr E_SyntaxError))
+           end
+  | MkVar =>
+      let '(rb1, rest1, off1) := advance len pm in
+      ([IVar offm], after_scan c (scan c SVar Normal 0 rb1 rest1 off1))
+  | MkBlock =>
+      match skip_basic_tag (skipZ len after) s_raw (block_e (dl c)) false with
+      | Some (raw, ws_start) =>
+          let '(rb1, rest1, off1) := advance (raw + len) pm in
+          match raw_search c ws_start rb1 [] rest1 off1 O with
+          | Some (chunk, nx) => ([IText chunk], nx)
+          | None => ([], Stop (FErr E_SyntaxError))
+          end
+      | None =>
+          let '(rb1, rest1, off1) := advance len pm in
+          ([IBlock offm], after_scan c (scan c SBlock Normal 0 rb1 rest1 off1))
+      end
+  | MkLineStmt =>
+      let '(rb1, rest1, off1) := advance len pm in
+      ([IBlock offm], after_scan c (scan c SLine Normal 0 rb1 rest1 off1))
+  | MkLineComment =>
+      let body := skipZ len after in
+      let r := drop_while (fun x => negb (is_nl x)) body in
+      let '(_, n) := skip_nl (qk c) r in
+      ([], Cont (advance (len + (lenZ body - lenZ r) + n) pm) false)
+  end.
+
+(* ---- one iteration of tokenize_root (+ handle_start_marker for the marker it found) ---- *)
+Definition root_step (c : cfg) (p : pos) (tl : bool) : list item * next :=
+  let '(rb, rest, off) := if tl then skip_whitespace p else p in
+  match find_start_marker (dl c) rb rest with
+  | None => (text_item rest, Stop FOk)
+  | Some (start, mk, len, w) =>
+      let peeked := takeZ start rest in
+      let pm := advance start (rb, rest, off) in
+      let lead :=
+        match w with
+        | WDefault => if should_lstrip (qk c) (lstrip_b (wsc c)) mk (fst (fst pm)) then lstrip_block (qk c) peeked else peeked
+        | WPreserve => peeked
+        | WRemove => rstrip is_ws peeked
+        end in
+      let '(its, nx) := handle_start_marker c mk len pm in
+      (text_item lead ++ its, nx)
+  end.
+
 (* ---- the template-level loop ---- *)
 Fixpoint toks (fuel : nat) (c : cfg) (p : pos) (tl : bool) : list item * fin :=
   match fuel with
   | O => ([], FGas)
   | S f =>
-  match p with
-  | (_, [], _) => ([], FOk)
-  | _ =>
-    let '(rb, rest, off) := if tl then skip_whitespace p else p in
-    match find_start_marker (dl c) rb rest with
-    | None => (text_item rest, FOk)
-    | Some (start, mk, len, w) =>
-        let peeked := takeZ start rest in
-        let '(rbm, after, offm) := advance start (rb, rest, off) in
-        let lead :=
-          match w with
-          | WDefault => if should_lstrip (lstrip_b (wsc c)) mk rbm then lstrip_block (qk c) peeked else peeked
-          | WPreserve => peeked
-          | WRemove => rstrip is_ws peeked
-          end in
-        let pm := (rbm, after, offm) in
-        let cont (its : list item) (pt : pos * bool) :=
-          let '(r, e) := toks f c (fst pt) (snd pt) in (text_item lead ++ its ++ r, e) in
-        let stop (its : list item) (e : fin) := (text_item lead ++ its, e) in
-        let after_scan (its : list item) (o : scan_out) :=
-          match o with
-          | ScEnd rb' rest' off' t =>
-              cont its (match t with
-                        | TNone => ((rb', rest', off'), false)
-                        | TMinus => ((rb', rest', off'), true)
-                        | TTrimNl => (skip_trim_nl c (rb', rest', off'), false)
-                        end)
-          | ScEof => stop its FEof
-          | ScErr code => stop its (FErr code)
-          | ScOOS => stop its FOOS
-          end in
-        match mk with
-        | MkComment =>
-            if is_nil (com_e (dl c)) then stop [] FPanic
-            else match find_sub (com_e (dl c)) (skipZ len after) 0 with
-                 | Some e =>
-                     let w2 := ws_of (nthZ (Z.max (e - 1) 0 + len) after) in
-                     cont [] (tail_ws c w2 (advance (e + len + lenZ (com_e (dl c))) pm))
-                 | None => stop [] (FErr E_SyntaxError)
-                 end
-        | MkVar =>
-            let '(rb1, rest1, off1) := advance len pm in
-            after_scan [IVar offm] (scan c SVar Normal 0 rb1 rest1 off1)
-        | MkBlock =>
-            match skip_basic_tag (skipZ len after) s_raw (block_e (dl c)) false with
-            | Some (raw, ws_start) =>
-                let '(rb1, rest1, off1) := advance (raw + len) pm in
-                match raw_search c ws_start rb1 [] rest1 off1 O with
-                | Some (chunk, pt) => cont [IText chunk] pt
-                | None => stop [] (FErr E_SyntaxError)
-                end
-            | None =>
-                let '(rb1, rest1, off1) := advance len pm in
-                after_scan [IBlock offm] (scan c SBlock Normal 0 rb1 rest1 off1)
-            end
-        | MkLineStmt =>
-            let '(rb1, rest1, off1) := advance len pm in
-            after_scan [IBlock offm] (scan c SLine Normal 0 rb1 rest1 off1)
-        | MkLineComment =>
-            let body := skipZ len after in
-            let r := drop_while (fun x => negb (is_nl x)) body in
-            let '(_, n) := skip_nl (qk c) r in
-            cont [] (advance (len + (lenZ body - lenZ r) + n) pm, false)
-        end
-    end
-  end
+      match p with
+      | (_, [], _) => ([], FOk)
+      | _ =>
+          match root_step c p tl with
+          | (its, Stop e) => (its, e)
+          | (its, Cont p' tl') => let '(r, e) := toks f c p' tl' in (its ++ r, e)
+          end
+      end
   end.
 
 (* ---- Tokenizer::new: one trailing LF, then one trailing CR, unless keep_trailing_newline ---- *)
